@@ -14,22 +14,23 @@ import (
 )
 
 type Cfg struct {
-	Kind      string // emit | unfold | throttle
-	Cap       int    // Emit/Unfold: cap argument; Throttling: capacity of the input channel
-	Freq      int    // Emit: frequency in ticks (1 tick = 1ns of virtual time)
-	Mode      string // Emit: pure | lift | try
-	Mask      int    // Emit: failing indices
-	Step      string // Unfold: inc | dbl | const
-	ConsGaps  []int  // consumer: sleep ConsGaps[i] before the i-th receive; after the script it cancels (generators) or keeps draining with gap 0 (throttle)
-	Drain     bool   // generator consumer: after its script and its cancel it keeps receiving until the channel closes
-	CancelAt  int    // >=0: a canceller thread sleeps that long, then cancels
-	Ops       int    // Throttling
-	Interval  int    // Throttling, ticks
-	K         int    // Throttling: number of input elements 0..K-1
-	ProdGap   int    // Throttling: producer sleeps this long before every send
-	NoErr     bool   // generators: nobody reads the error channel
-	Timeout   int    // >0: the context carries a deadline that many ticks away (instead of being cancelled by a thread)
-	PreCancel bool   // the context is already cancelled when the generator is created (nobody receives)
+	Kind       string // emit | unfold | throttle
+	Cap        int    // Emit/Unfold: cap argument; Throttling: capacity of the input channel
+	Freq       int    // Emit: frequency in ticks (1 tick = 1ns of virtual time)
+	Mode       string // Emit: pure | lift | try
+	Mask       int    // Emit: failing indices
+	Step       string // Unfold: inc | dbl | const
+	ConsGaps   []int  // consumer: sleep ConsGaps[i] before the i-th receive; after the script it cancels (generators) or keeps draining with gap 0 (throttle)
+	Drain      bool   // generator consumer: after its script and its cancel it keeps receiving until the channel closes
+	CancelAt   int    // >=0: a canceller thread sleeps that long, then cancels
+	Ops        int    // Throttling
+	Interval   int    // Throttling, ticks
+	K          int    // Throttling: number of input elements 0..K-1
+	ProdGap    int    // Throttling: producer sleeps this long before every send
+	NoErr      bool   // generators: nobody reads the error channel
+	Timeout    int    // >0: the context carries a deadline that many ticks away (instead of being cancelled by a thread)
+	Background bool   // the stage runs under context.Background(): never cancelled, Done() is nil
+	PreCancel  bool   // the context is already cancelled when the generator is created (nobody receives)
 }
 
 func Bit(m, i int) bool { return m&(1<<i) != 0 }
@@ -50,6 +51,9 @@ func tick(n int) time.Duration { return time.Duration(n) }
 
 func Scenario(c Cfg) {
 	ctx, cancel := context.WithCancel(context.Background())
+	if c.Background {
+		ctx, cancel = context.Background(), func() {}
+	}
 	if c.Timeout > 0 {
 		ctx, cancel = context.WithTimeout(context.Background(), tick(c.Timeout))
 		go func() {
